@@ -30,3 +30,11 @@ add("C19", "exploration",
     "A deterministic scheduler owns the yield points of real concurrent DataArray loads (thread start, lock acquisition, open/seek/read/close of the tracing filesystem, each before it takes effect) and enumerates all interleavings of 2 threads x 1-2 chunks (thorough: also 3 threads) for the three scenarios of the property by depth-first search, plus seeded random schedules of larger mixed loads; every thread's values are compared bitwise with the sequential load and a state with no runnable thread is reported as deadlock.",
     "Only scheduler-visible synchronisation (the SerializableLock used by ceos_alos2.xarray, replaced harness-side by a scheduler-aware subclass) can be pruned; a thread stuck on any other lock shows up as a join timeout => inconclusive. No dask.",
     "deterministic scheduler enumerating interleavings of real loads; sequential reference oracle; enabled-set deadlock detection", "DESIGN.md §4 C19")
+add("C07", "exploration",
+    "Seeded configurations of product x producer (create_cache option, CLI in-process and as a subprocess, adjacent or into the user cache directory) x location x filesystem x rpc at write/read time: the tree opened through the cache must equal the uncached tree leaf for leaf (incl. pixel values and the current call's chunk encoding); a tracing filesystem and an audit hook show that the image is not touched at open time when a usable cache exists and that no index file is touched with use_cache=False; a planted poisoned index must have no influence; with no cache the normal parse must result. Cache-key aliasing across filesystems is an open known finding.",
+    "Adjacent caches only for local products; precedence between adjacent and user-dir caches is not asserted; os.stat is not observable through audit hooks.",
+    "differential canon monitor + event-log (tracefs) and sys.addaudithook monitors + poison oracle", "DESIGN.md §4 C07")
+add("C08", "exploration",
+    "Round-trip identity of the real encoder/decoder on image groups produced by the real reader from extreme field values and on generated hierarchies covering every listed dtype kind, ranks 0-2, zero sizes and nested attributes; every document is decoded in-process and by a fresh interpreter reading it from disk, and compared at the xarray level (bit-exact values, dtypes, dims, tuple-vs-list attrs, order, paths) plus the image array's byte ranges/shape/type code.",
+    "NaN payloads are not part of the comparison; spans of one datetime array stay below 2^63 units; zero-size rank>=2 arrays are an open known finding (removed from both sides before comparing the rest of the hierarchy).",
+    "round-trip differential monitor across a process boundary", "DESIGN.md §4 C08")
